@@ -69,35 +69,119 @@ func guardedActions(f *FuncInfo, root ast.Node) []guardedAction {
 		}
 		return len(defsOfVarWithIndex(f, v)) <= 1
 	}
-	var condParts func(e ast.Expr, negate bool) []string
-	condParts = func(e ast.Expr, negate bool) []string {
+	// Conditions are rendered in negation normal form: negations are pushed into comparisons (operator flipped) and
+	// through && / || (De Morgan), local boolean variables with one definition are replaced by what defines them, nested
+	// conjunctions and disjunctions are flattened and their operands sorted. The guard of an action is the set of
+	// top-level conjuncts, so `a && b`, nested ifs, `!(!a || !b)` and a swapped if/else all give the same guard.
+	var nnf func(e ast.Expr, neg bool) (op string, parts []string) // op: "and", "or", "atom"
+	flipCmp := map[token.Token]token.Token{token.EQL: token.NEQ, token.NEQ: token.EQL, token.LSS: token.GEQ, token.GEQ: token.LSS, token.GTR: token.LEQ, token.LEQ: token.GTR}
+	render := func(op string, parts []string) string {
+		if len(parts) == 1 {
+			return parts[0]
+		}
+		p := append([]string(nil), parts...)
+		sort.Strings(p)
+		if op == "and" {
+			return "(" + strings.Join(p, "&&") + ")"
+		}
+		return "(" + strings.Join(p, "||") + ")"
+	}
+	nnf = func(e ast.Expr, neg bool) (string, []string) {
 		e = ast.Unparen(e)
-		if u, ok := e.(*ast.UnaryExpr); ok && u.Op == token.NOT {
-			return condParts(u.X, !negate)
-		}
-		if !negate {
-			var parts []string
-			for _, cj := range conjuncts(e) {
-				cj = ast.Unparen(cj)
-				if u, ok := cj.(*ast.UnaryExpr); ok && u.Op == token.NOT {
-					parts = append(parts, condParts(u.X, true)...)
-					continue
+		switch x := e.(type) {
+		case *ast.UnaryExpr:
+			if x.Op == token.NOT {
+				return nnf(x.X, !neg)
+			}
+		case *ast.BinaryExpr:
+			if x.Op == token.LAND || x.Op == token.LOR {
+				isAnd := (x.Op == token.LAND) != neg // De Morgan
+				var parts []string
+				for _, side := range []ast.Expr{x.X, x.Y} {
+					o, ps := nnf(side, neg)
+					if (o == "and") == isAnd && o != "atom" {
+						parts = append(parts, ps...) // flatten
+					} else {
+						parts = append(parts, render(o, ps))
+					}
 				}
-				parts = append(parts, desc(cj))
+				if isAnd {
+					return "and", parts
+				}
+				return "or", parts
 			}
-			return parts
+			if op, ok := flipCmp[x.Op]; ok {
+				if neg {
+					return "atom", []string{desc(&ast.BinaryExpr{X: x.X, Op: op, Y: x.Y, OpPos: x.OpPos})}
+				}
+				return "atom", []string{desc(x)}
+			}
+		case *ast.Ident:
+			// a local boolean with a single definition stands for its definition (isEnd := !isStart)
+			if v, ok := info.Uses[x].(*types.Var); ok && !v.IsField() && paramIndex(f, v) < 0 {
+				if bt, ok := v.Type().Underlying().(*types.Basic); ok && bt.Kind() == types.Bool {
+					if defs := defsOfVarWithIndex(f, v); len(defs) == 1 && defs[0].rhs != nil && defs[0].index < 0 {
+						if _, isCall := ast.Unparen(defs[0].rhs).(*ast.CallExpr); !isCall {
+							return nnf(defs[0].rhs, neg)
+						}
+					}
+				}
+			}
 		}
-		// negation: flip a comparison, distribute over ||, keep !(a && b) whole
-		if be, ok := e.(*ast.BinaryExpr); ok {
-			flip := map[token.Token]token.Token{token.EQL: token.NEQ, token.NEQ: token.EQL, token.LSS: token.GEQ, token.GEQ: token.LSS, token.GTR: token.LEQ, token.LEQ: token.GTR}
-			if op, ok := flip[be.Op]; ok {
-				return []string{desc(&ast.BinaryExpr{X: be.X, Op: op, Y: be.Y, OpPos: be.OpPos})}
-			}
-			if be.Op == token.LOR {
-				return append(condParts(be.X, true), condParts(be.Y, true)...)
+		if neg {
+			return "atom", []string{"!" + desc(e)}
+		}
+		return "atom", []string{desc(e)}
+	}
+	condParts := func(e ast.Expr, negate bool) []string {
+		op, parts := nnf(e, negate)
+		if op == "or" {
+			return []string{render(op, parts)}
+		}
+		return parts
+	}
+	// a local that is only ever written (a dead counter) carries no step of the algorithm
+	readCache := map[*types.Var]bool{}
+	readDone := map[*types.Var]bool{}
+	neverRead := func(e ast.Expr) bool {
+		id, ok := ast.Unparen(e).(*ast.Ident)
+		if !ok {
+			return false
+		}
+		v, ok := info.ObjectOf(id).(*types.Var)
+		if !ok || v.IsField() || paramIndex(f, v) >= 0 || recvOf(f) == v || (v.Pkg() != nil && v.Parent() == v.Pkg().Scope()) {
+			return false
+		}
+		sig := f.Obj.Type().(*types.Signature)
+		for i := 0; i < sig.Results().Len(); i++ {
+			if sig.Results().At(i) == v {
+				return false
 			}
 		}
-		return []string{"!(" + desc(e) + ")"}
+		if readDone[v] {
+			return !readCache[v]
+		}
+		read := false
+		ast.Inspect(f.Decl.Body, func(m ast.Node) bool {
+			uid, ok := m.(*ast.Ident)
+			if !ok || info.Uses[uid] != v {
+				return true
+			}
+			switch par := f.parentOf(uid).(type) {
+			case *ast.IncDecStmt:
+				return true
+			case *ast.AssignStmt:
+				for _, l := range par.Lhs {
+					if l == ast.Expr(uid) {
+						return true
+					}
+				}
+			}
+			read = true
+			return true
+		})
+		readDone[v], readCache[v] = true, read
+		return !read
 	}
 	var walk func(n ast.Node, guard []string)
 	emit := func(n ast.Node, guard []string, action string) {
@@ -112,9 +196,29 @@ func guardedActions(f *FuncInfo, root ast.Node) []guardedAction {
 		}
 		out = append(out, guardedAction{Guard: gg, Action: action, Pos: n.Pos()})
 	}
+	// diverts: the block always leaves the enclosing statement list (return, break, continue, goto, panic)
+	diverts := func(b *ast.BlockStmt) bool {
+		if b == nil || len(b.List) == 0 {
+			return false
+		}
+		switch last := b.List[len(b.List)-1].(type) {
+		case *ast.ReturnStmt, *ast.BranchStmt:
+			return true
+		case *ast.ExprStmt:
+			if call, ok := ast.Unparen(last.X).(*ast.CallExpr); ok && calleeID(info, call) == "builtin.panic" {
+				return true
+			}
+		}
+		return false
+	}
 	walkList := func(list []ast.Stmt, guard []string) {
+		g := guard
 		for _, st := range list {
-			walk(st, guard)
+			walk(st, g)
+			// `if c { …; return }` without else guards what follows by !c, exactly like `if c {…} else {rest}`
+			if ifs, ok := st.(*ast.IfStmt); ok && ifs.Else == nil && diverts(ifs.Body) {
+				g = append(append([]string(nil), g...), condParts(ifs.Cond, true)...)
+			}
 		}
 	}
 	walk = func(n ast.Node, guard []string) {
@@ -132,6 +236,17 @@ func guardedActions(f *FuncInfo, root ast.Node) []guardedAction {
 			}
 		case *ast.ForStmt:
 			g := append([]string(nil), guard...)
+			// `for i := 0; i < len(X); i++` is a range loop over X
+			if as, ok := x.Init.(*ast.AssignStmt); ok && len(as.Lhs) == 1 {
+				if id, ok := as.Lhs[0].(*ast.Ident); ok {
+					if v, ok := info.Defs[id].(*types.Var); ok {
+						if over := inductionOver(f, v); over != nil {
+							walk(x.Body, append(g, "range("+desc(over)+")"))
+							return
+						}
+					}
+				}
+			}
 			if x.Cond != nil {
 				g = append(g, "loop("+desc(x.Cond)+")")
 			} else {
@@ -163,27 +278,29 @@ func guardedActions(f *FuncInfo, root ast.Node) []guardedAction {
 				walkList(cc.Body, g)
 			}
 		case *ast.SwitchStmt:
-			tag := ""
-			if x.Tag != nil {
-				tag = desc(x.Tag)
+			if x.Init != nil {
+				walk(x.Init, guard)
 			}
-			var prior []string
 			for _, cl := range x.Body.List {
 				cc := cl.(*ast.CaseClause)
 				g := append([]string(nil), guard...)
-				if cc.List == nil {
-					g = append(g, "default-of("+strings.Join(prior, "|")+")")
-				} else {
+				switch {
+				case cc.List == nil:
+					g = append(g, "default")
+				case x.Tag == nil && len(cc.List) == 1:
+					// a tagless case is a condition, as in an if / else-if chain
+					g = append(g, condParts(cc.List[0], false)...)
+				default:
 					var alts []string
 					for _, e := range cc.List {
-						if tag != "" {
-							alts = append(alts, tag+"=="+desc(e))
+						if x.Tag != nil {
+							alts = append(alts, "("+desc(e)+"=="+desc(x.Tag)+")")
 						} else {
 							alts = append(alts, desc(e))
 						}
 					}
-					g = append(g, "case("+strings.Join(alts, "|")+")")
-					prior = append(prior, alts...)
+					sort.Strings(alts)
+					g = append(g, strings.Join(alts, "||"))
 				}
 				walkList(cc.Body, g)
 			}
@@ -200,7 +317,7 @@ func guardedActions(f *FuncInfo, root ast.Node) []guardedAction {
 			walk(x.Stmt, guard)
 		case *ast.AssignStmt:
 			for i, l := range x.Lhs {
-				if singleDefLocal(l) {
+				if singleDefLocal(l) || neverRead(l) {
 					continue
 				}
 				var r string
@@ -218,6 +335,9 @@ func guardedActions(f *FuncInfo, root ast.Node) []guardedAction {
 			}
 			// a call on the right of a fully-local definition may still matter for its effect: not listed (its value is inlined at uses)
 		case *ast.IncDecStmt:
+			if neverRead(x.X) {
+				return
+			}
 			emit(x, guard, lhsDesc(f, x.X)+x.Tok.String())
 		case *ast.ReturnStmt:
 			var rs []string
@@ -379,6 +499,8 @@ var guardedCore = []string{
 	"pkg/cafs.chunkReader.Read", "pkg/cafs.chunkReader.ReadAt", "pkg/cafs.readLeafFunc", "pkg/cafs.chunkReader.WriteTo", "pkg/cafs.chunkReader.verifyHash",
 	"pkg/cafs.defaultFs.Put", "pkg/cafs.defaultFs.writeRootKey", "pkg/cafs.keyFromBytes", "pkg/cafs.rootHash", "pkg/cafs.leaves", "pkg/cafs.verifiedKeys", "pkg/cafs.verificationKey",
 	"pkg/cafs.LeafKeys", "pkg/cafs.UnverifiedLeafKeys", "pkg/cafs.existsAndValidBlob", "pkg/cafs.verifyBlob", "pkg/cafs.calculateKeyAndOffset",
+	"pkg/cafs.defaultFs.Has", "pkg/cafs.defaultFs.RootKeys", "pkg/cafs.defaultFs.Delete", "pkg/cafs.defaultFs.Keys", "pkg/cafs.defaultFs.keys", "pkg/cafs.IsRootKey", "pkg/cafs.bytesFromRoot",
+	"pkg/cafs.newReader", "pkg/cafs.seekAheadFunc", "pkg/cafs.defaultFs.reader", "pkg/cafs.chunkReader.doPrefetch", "pkg/cafs.addToCacheFunc", "pkg/cafs.leavesForHash", "pkg/cafs.LeavesForHash",
 	// C04-C06 bundles
 	"pkg/core.uploadBundle", "pkg/core.uploadBundleFiles", "pkg/core.uploadBundleFile", "pkg/core.uploadBundleEntriesFileList", "pkg/core.uploadBundleDescriptor", "pkg/core.Bundle.skipFile",
 	"pkg/core.unpackBundleFileList", "pkg/core.downloadBundleFileList", "pkg/core.downloadBundleFileListFile", "pkg/core.downloadBundleEntries", "pkg/core.unpackDataFile", "pkg/core.unpackBundleDescriptor",
@@ -393,6 +515,10 @@ var guardedCore = []string{
 	"pkg/core.fetchBundleBatch", "pkg/core.fetchLabelBatch", "pkg/core.fetchRepoBatch", "pkg/core.fetchDiamondBatch", "pkg/core.fetchSplitBatch",
 	"pkg/core.getBundleAsync", "pkg/core.getLabelAsync", "pkg/core.getRepoAsync", "pkg/core.getDiamondAsync", "pkg/core.getSplitAsync",
 	"pkg/core.Label.UploadDescriptor", "pkg/core.Label.DownloadDescriptor", "pkg/core.Label.DownloadDescriptorVersions",
+	"pkg/core.listLabelsChan", "pkg/core.listSplitsChan", "pkg/core.listDiamondsChan", "pkg/core.listBundlesChan", "pkg/core.listReposChan",
+	"pkg/core.ListLabelsApply", "pkg/core.ListSplitsApply", "pkg/core.ListDiamondsApply", "pkg/core.ListBundlesApply", "pkg/core.ListReposApply",
+	"pkg/core.fetchBundles", "pkg/core.fetchDiamonds", "pkg/core.fetchLabels", "pkg/core.fetchRepos", "pkg/core.fetchSplits", "pkg/core.readDiamond", "pkg/core.readSplit",
+	"pkg/core.getRepoDescriptorByRepoName", "pkg/core.DiamondExists", "pkg/core.GetRepo", "pkg/core.GetDiamond", "pkg/core.GetSplit",
 	// C09-C10 repositories
 	"pkg/core.CreateRepo", "pkg/core.DeleteRepo", "pkg/core.DeleteBundle", "pkg/core.DeleteLabel", "pkg/core.RenameRepo", "pkg/core.RepoSquash", "pkg/core.DeleteEntriesFromRepo",
 	// C11-C12 diamonds
@@ -464,6 +590,11 @@ func genGuardedTable(p *Prog, path string) {
 			}
 		}
 	}
+	var all []string
+	for _, f := range p.AllFuncs() {
+		all = append(all, f.ID)
+	}
+	table["__funcs__"] = all
 	buf, _ := json.MarshalIndent(table, "", " ")
 	if err := os.WriteFile(path, append(buf, '\n'), 0o644); err != nil {
 		undecided("cannot write %s: %v", path, err)
@@ -507,19 +638,31 @@ func checkGuardedTable(c *Ctx, rule string) int {
 			if len(want) == 0 {
 				continue
 			}
-			have := map[string]bool{}
+			var cur []guardedAction
 			var lines []string
 			for _, g := range guardedActions(f, body) {
 				if key == f.ID && innermostLitAt(f, g.Pos) != nil {
 					continue
 				}
-				have[g.String()] = true
+				cur = append(cur, g)
 				lines = append(lines, g.String())
+			}
+			var missing []string
+			for _, w := range want {
+				if !guardedSatisfiedRef(w, cur, want) {
+					missing = append(missing, w)
+				}
+			}
+			if len(missing) > 0 && callsNewFunction(p, f, body) {
+				// part of the body moved into a function the reviewed tree did not have: the core was restructured and this
+				// rule does not judge it (the other rules still do)
+				c.note("%s: %s calls a function that is not in the reviewed tree; its %d changed guarded actions are not judged", rule, key, len(missing))
+				continue
 			}
 			for _, w := range want {
 				n++
 				h := fnv32(w)
-				if have[w] {
+				if guardedSatisfiedRef(w, cur, want) {
 					c.ok(rule, key+":ga:"+h, p.Pos(body.Pos()), w)
 					continue
 				}
@@ -533,6 +676,140 @@ func checkGuardedTable(c *Ctx, rule string) int {
 		}
 	}
 	return n
+}
+
+// guardedSatisfied: the recorded step is still performed under at least the recorded conditions (same action, guard a
+// superset of the recorded guard: added checks are fine, a dropped or altered one is not).
+func guardedSatisfied(w string, cur []guardedAction) bool {
+	return guardedSatisfiedRef(w, cur, nil)
+}
+
+// negLiteral negates a rendered guard literal when its form allows it ("" otherwise).
+func negLiteral(s string) string {
+	switch {
+	case strings.HasPrefix(s, "!"):
+		return s[1:]
+	case strings.HasPrefix(s, "empty("):
+		return "non" + s
+	case strings.HasPrefix(s, "nonempty("):
+		return s[3:]
+	}
+	if strings.HasPrefix(s, "(") && strings.HasSuffix(s, ")") {
+		// top-level binary comparison: find the operator at depth 1
+		depth := 0
+		for i := 0; i < len(s); i++ {
+			switch s[i] {
+			case '(', '[', '{':
+				depth++
+			case ')', ']', '}':
+				depth--
+			case '"':
+				// skip string constants
+				for i++; i < len(s) && s[i] != '"'; i++ {
+					if s[i] == '\\' {
+						i++
+					}
+				}
+			}
+			if depth != 1 {
+				continue
+			}
+			for _, op := range []string{"==", "!=", "<=", "<"} {
+				if strings.HasPrefix(s[i:], op) && i > 1 {
+					l, r := s[1:i], s[i+len(op):len(s)-1]
+					switch op {
+					case "==":
+						return "(" + l + "!=" + r + ")"
+					case "!=":
+						return "(" + l + "==" + r + ")"
+					case "<":
+						return "(" + r + "<=" + l + ")"
+					case "<=":
+						return "(" + r + "<" + l + ")"
+					}
+				}
+			}
+		}
+		return ""
+	}
+	return "!" + s
+}
+
+// guardedSatisfiedRef: the recorded step is still performed under at least the recorded conditions: same action and a
+// guard that is a superset of the recorded guard (added checks are fine, a dropped or altered one is not). When the
+// reviewed tree performs the same action under both b and !b (two cases of a switch doing the same thing), the two
+// recorded lines may have been merged: the literal b is then not required.
+func guardedSatisfiedRef(w string, cur []guardedAction, ref []string) bool {
+	wa, wg := w, []string(nil)
+	if j := strings.Index(w, " => "); j >= 0 {
+		wa = w[j+4:]
+		wg = strings.Split(w[:j], " && ")
+	}
+	// literals that may be dropped: the reference also has (guard with the literal negated) => same action
+	optional := map[string]bool{}
+	if len(ref) > 0 {
+		refSet := map[string]bool{}
+		for _, r := range ref {
+			refSet[r] = true
+		}
+		for i, b := range wg {
+			nb := negLiteral(b)
+			if nb == "" {
+				continue
+			}
+			alt := append(append([]string(nil), wg[:i]...), wg[i+1:]...)
+			alt = append(alt, nb)
+			sort.Strings(alt)
+			if refSet[strings.Join(alt, " && ")+" => "+wa] {
+				optional[b] = true
+			}
+		}
+	}
+	for _, g := range cur {
+		if g.Action != wa {
+			continue
+		}
+		have := map[string]bool{}
+		for _, x := range g.Guard {
+			have[x] = true
+		}
+		ok := true
+		for _, x := range wg {
+			if !have[x] && !optional[x] {
+				ok = false
+				break
+			}
+		}
+		if ok {
+			return true
+		}
+	}
+	return false
+}
+
+// callsNewFunction: body calls a repository function that the reviewed tree did not have.
+func callsNewFunction(p *Prog, f *FuncInfo, body ast.Node) bool {
+	ref := guardedTable["__funcs__"]
+	if len(ref) == 0 {
+		return false
+	}
+	known := map[string]bool{}
+	for _, id := range ref {
+		known[id] = true
+	}
+	info := f.Info()
+	found := false
+	ast.Inspect(body, func(n ast.Node) bool {
+		if call, ok := n.(*ast.CallExpr); ok {
+			if fn, ok := calleeObj(info, call).(*types.Func); ok {
+				if id := funcID(fn); p.funcs[id] != nil && !known[id] {
+					found = true
+				}
+			}
+		}
+		return true
+	})
+	return found
 }
 
 func clip(s string, n int) string {
@@ -570,4 +847,30 @@ func nearestGuardedLine(w string, lines []string) string {
 		}
 	}
 	return best
+}
+
+// shapeChanged is what a hand-written rule calls when the construct it reads no longer has the syntactic shape it
+// knows (a switch became nested ifs, a range loop an index loop, a block moved into a helper). If the function is one of
+// the recorded cores, the judgement is left to the guarded-action table, which is robust to such rewrites and still
+// reports a changed test or step; otherwise the rule fails as before.
+func (c *Ctx) shapeChanged(rule, key, pos, fnID, msg string) {
+	if guardedTable == nil {
+		guardedTable = map[string][]string{}
+		if len(guardedTableJSON) > 0 {
+			_ = json.Unmarshal(guardedTableJSON, &guardedTable)
+		}
+	}
+	covered := len(guardedTable[fnID]) > 0
+	if !covered {
+		for k := range guardedTable {
+			if strings.HasPrefix(k, fnID+"#lit") {
+				covered = true
+			}
+		}
+	}
+	if covered && c.P.Tags == "" {
+		c.ok(rule, key, pos, "shape not recognised ("+msg+"): left to the guarded-action table of "+fnID)
+		return
+	}
+	c.fail(rule, key, pos, msg)
 }
